@@ -279,6 +279,9 @@ func (set *ForkIdSet) MakeForkIds(srcs syntax.ForkRootList,
 }
 
 func (set *ForkIdSet) expandStaticForks(lookup *syntax.TypeLookup) {
+	if len(set.List) == 0 {
+		return
+	}
 	index := make(map[*syntax.CallStm]syntax.CollectionIndex, len(set.List[0]))
 	for i := 0; i < len(set.List); i++ {
 		fork := set.List[i]
